@@ -32,6 +32,7 @@ type flJob struct {
 	TraceFile    string `json:"trace_file"`
 	RetryExhaust bool   `json:"retry_exhaust"`
 	KnownABA     bool   `json:"known_aba"` // prune executions matching the ABA classifier (listed known finding)
+	OnlyProp     string `json:"only_prop"`
 }
 
 type flSchedule struct {
@@ -96,6 +97,7 @@ type flWorld struct {
 	snap      map[int][]byte        // slot -> header snapshot at acquisition
 	abaHit    bool
 	knownABA  bool
+	onlyProp  string // witness runs: report only violations of this property (run on to see its symptom)
 	viol      *flViolation
 	labels    map[string]bool
 }
@@ -182,6 +184,9 @@ func (w *flWorld) project() []int {
 }
 
 func (w *flWorld) fail(prop, kind, detail string) {
+	if w.onlyProp != "" && prop != w.onlyProp {
+		return
+	}
 	if w.viol == nil {
 		w.viol = &flViolation{Property: prop, Kind: kind, Detail: detail, NSlots: w.n, NThreads: len(w.threads)}
 	}
@@ -471,6 +476,7 @@ func TestVS_FreeList(t *testing.T) {
 	// ---- 1. replay of TLC behaviours
 	for _, sc := range job.Schedules {
 		w := flNewWorld(job.NSlots, job.NThreads, job.CapPer, job.KnownABA)
+		w.onlyProp = job.OnlyProp
 		drift := false
 		for i, st := range sc.Steps {
 			ft := w.threads[st[0]-1]
